@@ -21,6 +21,11 @@ Collapse.tla (the loop Solve -> Collapse -> Solve ... as a state machine), Trace
   code->spec  real DE / DE2 / Nelder-Mead / Powell runs (Solve() and manual Step()/Collapse() loops) on objectives
               with flat and tied directions under Or(stop, CollapseAt, CollapseAs); every run is validated by TLC
               against Trace_Collapse.tla (harness/c11_loop.record_run / validate).
+  measures    the same loop machine for CollapseWeight / CollapsePosition on solvers whose parameter vector is a flattened
+              product measure (npts (2,2), (3,), (3,3); step monitor with `_npts`): relations "collapsed weight exactly 0.0
+              and the factor's total weight unchanged", "tracked positions equal" (harness/c11_measure.py): design runs,
+              refutation of the as-found composition, witnesses, emitted stops replayed through Collapse() (masks in the
+              dict / set / where formats), recorded runs on objectives that drive weights to zero / merge positions.
 """
 import time, json, random, collections
 from concurrent.futures import ThreadPoolExecutor
@@ -75,7 +80,46 @@ def plan(thorough):
     if not thorough:                 # quick: the witnesses of the antecedents the loop clauses of C11 depend on
         wit = ["NoSecondCollapse", "NoPinnedAndTied", "NoLimitStop", "NoMaskedCollapse"]
     refute += [("witness:" + w, "term/MC_Collapse", "MC_Collapse_wit_%s.cfg" % w, w) for w in wit]
+    # ---- measure collapses (CollapseWeight / CollapsePosition), the same machine
+    design.append(("design:measure", "term/MC_Collapse", "MC_Collapse_measure_%s.cfg" % t))
+    refute += [("refute:measure-asis", "term/MC_Collapse", "MC_Collapse_measure_asis.cfg", "EvalSatisfies")]
+    if thorough:       # (quick: the antecedents are counted among the emitted stops instead, see MEASURE_WITNESSES)
+        refute += [("refute:measure-replace", "term/MC_Collapse", "MC_Collapse_measure_replace.cfg", "NeverTwice"),
+                   ("refute:measure-keep", "term/MC_Collapse", "MC_Collapse_measure_keep.cfg", "CollapseBound")]
+        mwit = ["NoZeroAndTracked", "NoChainedTracks", "NoMaskedMeasureCollapse", "NoWtAndPsAtOnce", "NoWtCollapse", "NoPsCollapse",
+                "NoFullZero", "NoSecondCollapse"]
+        refute += [("witness:measure:" + w, "term/MC_Collapse", "MC_Collapse_mwit_%s.cfg" % w, w) for w in mwit]
     return cases, design, script, refute
+
+
+def _chained(tp):
+    deg = collections.Counter((m, k) for m, q in tp for k in q)
+    return any(v > 1 for v in deg.values())
+
+
+# antecedents of the measure clauses, counted among the stops TLC emitted (each must occur; thorough also has TLC violate the
+# corresponding Never-invariants of Collapse.tla)
+MEASURE_WITNESSES = {
+    "weights-and-positions-collapse-at-once": lambda c: bool(c["rw"] and c["rp"]),
+    "collapsed-weight-of-a-tracked-support-point": lambda c: bool(c["rw"] or c["rp"]) and any(z[1] in q and z[0] == m for z in c["zw"] for m, q in c["tp"]),
+    "chained-tracked-pairs": lambda c: bool(c["rp"]) and _chained(c["tp"]),
+    "collapse-with-a-non-empty-measure-mask": lambda c: bool(c["rw"] or c["rp"]) and (len(c["mk"]["wt"]["els"]) > len(c["rw"]) or len(c["mk"]["ps"]["els"]) > len(c["rp"])),
+    "second-collapse": lambda c: bool(c["rw"] or c["rp"]) and len(c["script"]) >= 1,
+    "limit-stop-that-pre-empts-a-collapse": lambda c: c["msg"] == ["limit"] and bool(c["again"]),
+    "stop-member-next-to-a-collapse-member": lambda c: "stop" in c["msg"] and len(c["msg"]) > 1,
+    "set-or-where-format-mask-grown": lambda c: bool(c["rw"] or c["rp"]) and any(c["mk"][k]["fmt"] in ("set", "where") and c["mk"][k]["els"] for k in ("wt", "ps")),
+    "none-mask-becomes-dict": lambda c: not c["script"] and bool(c["rw"]) and c["conf"]["initWt"]["fmt"] == "none" and c["mk"]["wt"]["fmt"] == "dict",
+}
+
+
+def mplan(thorough):
+    """the emitted stops of the measure models: (name, module, cfg)"""
+    items = [("mscript:22", "term/MC_Collapse", "MC_Collapse_mscript_%s22.cfg" % ("thorough" if thorough else "quick")),
+             ("mscript:13", "term/MC_Collapse", "MC_Collapse_mscript_%s13.cfg" % ("thorough" if thorough else "quick")),
+             ("mscript:22:window2", "term/MC_Collapse", "MC_Collapse_mscript_win22.cfg")]
+    if thorough:
+        items.append(("mscript:33", "term/MC_Collapse", "MC_Collapse_mscript_thorough33.cfg"))
+    return items
 
 
 # ------------------------------------------------------------------------------------------------------
@@ -158,13 +202,15 @@ def drivers(thorough, seed):
 # ------------------------------------------------------------------------------------------------------
 def explore(ck, a, light=False):
     """light: self-test mode (smaller runs, no design model checking)"""
-    from harness import c11_detect as D, c11_loop as L
+    from harness import c11_detect as D, c11_loop as L, c11_measure as Mz
     ct, mt, ma, NM = mods()
     thorough = a.tier == "thorough" and not light
     cases, design, script, refute = plan(thorough)
+    mscript = mplan(thorough)
     if light:
         design, refute = [], []
-    jobs = max(2, min(a.jobs, 8 if not thorough else 16))
+        mscript = mscript[:2]
+    jobs = max(2, min(a.jobs, 12 if not thorough else 16))
     nthreads = max(1, jobs // 2)        # concurrent single-worker TLC runs
     nproc = max(1, jobs - nthreads)      # replay processes
     import multiprocessing
@@ -183,7 +229,7 @@ def explore(ck, a, light=False):
             TLC_CACHE[item[0]] = r
         return r
     futs = {}
-    for item in script + sorted(cases, key=lambda it: it[0] != "cases:param2") + design + refute:     # the longest runs first
+    for item in script + mscript[:1] + sorted(cases, key=lambda it: it[0] != "cases:param2") + mscript[1:] + design + refute:     # the longest runs first
         futs[item[0]] = pool.submit(tlc, item)
 
     phase = ck.extra.setdefault("phase_wall_s", {})
@@ -202,16 +248,25 @@ def explore(ck, a, light=False):
     if light:
         runs = [r for r in runs if r["n"] == 3]
     traces = [tr for part in ppool.map(L.record_chunk, chunks(runs, 1 + len(runs) // (4 * nproc))) for tr in part]
+    # ... and the runs on product measures (validated against the same Trace_Collapse.tla)
+    mruns = Mz.mdrivers(thorough, a.seed)
+    if light:
+        mruns = [r for r in mruns if r["kind"] != "DE2" and r["name"] != "nothing"]
+    nparam = len(runs)
+    mrec = ppool.map_async(Mz.record_mchunk, chunks(mruns, 1 + len(mruns) // (4 * nproc)))     # collected after the case tables
     ck.extra["record_wall_s"] = round(time.time() - t0, 1)
-    by_n = collections.defaultdict(list)
-    for i, r in enumerate(runs):
-        by_n[r["n"]].append(i)
     vfuts = {}
-    for n, idxs in by_n.items():
-        chunk = 250
-        for j in range(0, len(idxs), chunk):
-            part = idxs[j:j + chunk]
-            vfuts[(n, j)] = (part, pool.submit(L.validate, [traces[i] for i in part], n))
+
+    def submit_validation(lo, hi, meas):
+        by_n = collections.defaultdict(list)
+        for i in range(lo, hi):
+            by_n[runs[i]["n"]].append(i)
+        for n, idxs in by_n.items():
+            chunk = 250 if not meas else 60
+            for j in range(0, len(idxs), chunk):
+                part = idxs[j:j + chunk]
+                vfuts[(n, meas, j)] = (part, pool.submit(L.validate, [traces[i] for i in part], n))
+    submit_validation(0, nparam, False)
 
     mark("recorded")
     # ---- spec -> code (1): detector case tables (in the order their TLC runs are expected to finish)
@@ -248,6 +303,10 @@ def explore(ck, a, light=False):
             ck.sample({"history": st["h"], "configuration": D.describe(c), "specification_reports": st["d"][len(hdr["defcat"]) // 2]})
         mark(item[0] + "-replayed")
     ck.extra["detector_cases"] = ndet
+    traces += [tr for part in mrec.get() for tr in part]
+    runs = runs + mruns
+    submit_validation(nparam, len(runs), True)
+    mark("measure-runs-recorded")
 
     # ---- spec -> code (2): the loop stops
     nstop = 0
@@ -277,6 +336,45 @@ def explore(ck, a, light=False):
     ck.extra["loop_stops_replayed"] = nstop
     mark("stops-replayed")
 
+    # ---- spec -> code (2m): the loop stops of the measure models
+    nmstop = napplied = 0
+    mwitness = dict((k, 0) for k in MEASURE_WITNESSES)
+    for sitem in mscript:
+        r = futs[sitem[0]].result()
+        mark(sitem[0] + "-tlc")
+        ck.mc(r, "Collapse.tla measure stops with scripts (%s)" % sitem[2])
+        if r.violated:
+            ck.violation("spec:" + r.violated, {"tlc": r.out[-3000:]}, "design invariant %s violated in Collapse.tla (%s)" % (r.violated, sitem[2]))
+        domain = sorted(set(tuple(p) for cc in r.printed for p in cc["h"]))
+        stops = list(enumerate(r.printed))
+        if light:
+            stops = stops[::2]
+        work = [(part, domain) for part in chunks(stops, 1 + len(stops) // (4 * nproc))]
+        for out in ppool.map(Mz.replay_mstops_chunk, work):
+            for (i, nt, viol) in out:
+                ck.case(nontrivial=nt, key=("mstop", sitem[0], i))
+                ck.trace()
+                nmstop += 1
+                for key, detail, what in viol:
+                    ck.violation(key, detail, what)
+        napplied += sum(1 for c in r.printed if c["rw"] or c["rp"])
+        for c in r.printed:
+            for k, test in MEASURE_WITNESSES.items():
+                mwitness[k] += 1 if test(c) else 0
+        if r.printed and sitem is mscript[0]:
+            c = next((c for c in r.printed if c["rw"] and c["rp"] and c["script"]), r.printed[len(r.printed) // 2])
+            ck.sample({"measure_loop_stop": {"npts": Mz.npts_of(c["conf"]), "script": c["script"], "history": c["h"], "len": c["l"], "members": c["msg"]},
+                       "specification": {"reported_zero_weights": c["rw"], "reported_tracked_pairs": c["rp"], "masks_after": {k: c["mk"][k] for k in ("wt", "ps")},
+                                         "all_zero_weights": c["zw"], "all_tracked_pairs": c["tp"],
+                                         "patterns_breaking_a_relation(per factor: weights 0/1, positions by equality, mass flag)": c["mbad"][:3]}}, limit=8)
+    ck.extra["measure_loop_stops_replayed"] = nmstop
+    ck.extra["measure_loop_stops_applying_a_collapse"] = napplied
+    ck.extra["measure_antecedents_among_emitted_stops"] = mwitness
+    for k, cnt in mwitness.items():
+        if not cnt and not light:
+            ck.violation("spec:vacuous:measure:" + k, {"counts": mwitness}, "no emitted measure stop shows the antecedent '%s'" % k)
+    mark("measure-stops-replayed")
+
     # ---- bounds collapse: mask algebra only
     K.finish(ck, cost_items, cost_cases, cost_fut.result())
     mark("collapse_cost-mask-algebra")
@@ -300,9 +398,9 @@ def explore(ck, a, light=False):
     mark("design-tlc")
     # ---- code -> spec: verdicts
     nrun = 0
-    for (n, j), (part, fut) in sorted(vfuts.items()):
+    for (n, meas, j), (part, fut) in sorted(vfuts.items()):
         r, verdicts = fut.result()
-        ck.mc(r, "Trace_Collapse.tla (N=%d, %d runs)" % (n, len(part)))
+        ck.mc(r, "Trace_Collapse.tla (N=%d%s, %d runs)" % (n, ", product measures" if meas else "", len(part)))
         if verdicts is None:
             ck.violation("trace:invariant:" + str(r.violated), {"tlc": r.out[-3000:]},
                          "invariant %s of Collapse.tla violated in a faithful recorded run (N=%d)" % (r.violated, n))
@@ -314,11 +412,14 @@ def explore(ck, a, light=False):
             ck.case(nontrivial=bool(applied) and after, key=("run", i))
             ck.trace()
             nrun += 1
-            head = [dict((k, e[k]) for k in e if k in ("ev", "msg", "ra", "rs", "len", "calls", "gens", "what")) for e in tr if e["ev"] != "CostCall"]
+            head = [dict((k, e[k]) for k in e if k in ("ev", "msg", "ra", "rs", "rw", "rp", "len", "calls", "gens", "what")) for e in tr if e["ev"] != "CostCall"]
             detail = {"run": dict((k, run[k]) for k in run if k != "conf"), "termination": run["conf"], "events(without CostCall)": head[:30]}
             if v["dev"] is None:
                 ev = v["event"] or {}
-                if ev.get("ev") == "Raise":
+                if ev.get("ev") == "Raise" and "npts" in run:
+                    key = "loop:raises[measure-mask-format:%s]:%s" % (Mz.fmt_class(run["conf"]), ev.get("what", "").split("(")[0])
+                    what = "%s %s %s npts=%s: the run raised %s after %d collapse(s)" % (run["kind"], run["mode"], run["name"], run["npts"], ev.get("what"), ev.get("ncol", 0))
+                elif ev.get("ev") == "Raise":
                     key = "loop:raises[target=%s]:%s" % (run["conf"]["atTgt"]["mode"] if run["conf"]["atOn"] else "-", ev.get("what", "").split("(")[0])
                     what = "%s %s %s: the run raised %s after %d collapse(s)" % (run["kind"], run["mode"], run["name"], ev.get("what"), ev.get("ncol", 0))
                 else:
@@ -330,8 +431,11 @@ def explore(ck, a, light=False):
                 ck.violation("loop:%s:%s" % (clause, run["kind"]), dict(detail, broken_clauses=v["dev"], trace=tr[:400]),
                              "%s %s %s (n=%d, seed %d): recorded run breaks %s of Collapse.tla (collapses: %s)" % (
                                  run["kind"], run["mode"], run["name"], run["n"], run["seed"], clause,
-                                 [(e["ra"], e["rs"]) for e in applied]))
+                                 [(e["ra"], e["rs"], e["rw"], e["rp"]) for e in applied]))
     ck.extra["recorded_runs"] = nrun
+    ck.extra["recorded_measure_runs"] = len(mruns)
+    ck.extra["measure_runs_with_applied_collapse"] = sum(1 for tr in traces[nparam:] if any(e["ev"] == "Collapse" for e in tr))
+    ck.extra["measure_cost_calls_not_paired_with_a_constrained_candidate"] = sum(tr[-1].get("unpaired", 0) for tr in traces[nparam:])
     mark("traces-validated")
     ck.extra["runs_with_applied_collapse"] = sum(1 for tr in traces if any(e["ev"] == "Collapse" for e in tr))
     if traces:
@@ -339,7 +443,13 @@ def explore(ck, a, light=False):
         tr = traces[i]
         ck.sample({"recorded_run": dict((k, runs[i][k]) for k in ("name", "kind", "n", "mode", "stop", "seed")),
                    "events(without CostCall)": [dict((k, e[k]) for k in e if k in ("ev", "msg", "ra", "rs", "vals", "len", "before", "after", "best")) for e in tr if e["ev"] not in ("CostCall", "New")][:8],
-                   "cost_calls_checked": sum(e["ev"] == "CostCall" for e in tr)})
+                   "cost_calls_checked": sum(e["ev"] == "CostCall" for e in tr)}, limit=9)
+    j = next((i for i in range(nparam, len(traces)) if sum(e["ev"] == "Collapse" for e in traces[i]) >= 2 and traces[i][-1]["ev"] == "End"), None)
+    if j is not None:
+        tr = traces[j]
+        ck.sample({"recorded_measure_run": dict((k, runs[j][k]) for k in ("name", "kind", "npts", "mode", "stop", "seed")),
+                   "events(without CostCall)": [dict((k, e[k]) for k in e if k in ("ev", "msg", "rw", "rp", "len", "after", "best")) for e in tr if e["ev"] not in ("CostCall", "New")][:8],
+                   "cost_calls_checked(each with its mass flags)": sum(e["ev"] == "CostCall" for e in tr)}, limit=10)
     pool.shutdown()
     ppool.close()
     ppool.join()
@@ -363,7 +473,27 @@ def explore(ck, a, light=False):
         "Detect = reported is re-derived by TLC on recorded runs only for tolerance 0 (values are equality-preserving ids)",
         "collapse_cost / CollapseCost (bounds collapse): the mask algebra only (report = bounds intersected with the mask, nothing if nothing "
         "new, update_mask, fixed point) on the implementation's own unmasked results; its interval search is not specified",
-        "offset=True and CollapseCost in the solver loop are not covered; that the inner Step loop returns is C05",
+        "measure collapses in the loop: product measures with equal-sized factors, npts (2,2), (3,) and (3,3); the termination is "
+        "Or(stop, CollapseWeight, CollapsePosition) (no CollapseAt / CollapseAs next to them); the relation of a collapsed weight is "
+        "'exactly 0.0, and the factor's total weight equals that of the candidate the solver's constraints were applied to' up to a "
+        "relative rounding of 2^-40 of the renormalisation (impose_unweighted: 'norm-preserving'); of a tracked pair 'positions exactly "
+        "equal'; the weight a tracked pair moves from its second to its first member (documented for impose_measure) is not demanded; "
+        "nothing is demanded of a factor ALL of whose weights were collapsed, and candidates whose factor has total weight 0 are not probed; "
+        "a candidate whose weights OUTSIDE the collapsed ones of a factor are all exactly 0.0 has no point with 'collapsed weights 0 and "
+        "total weight kept' (no projection): nothing is demanded of that factor for that candidate (NoProjection in Collapse.tla; in "
+        "recorded runs TLC decides it from the candidate's exactly-zero weights the harness records with every cost call)",
+        "measure clause names carry the circumstance: [index-not-tracked | index-in-tracked-pair] x [first-collapse-of-the-factor | "
+        "after-an-older-collapse-of-the-factor] (was the weight collapsed when its factor already carried a zero weight or tracked pair of "
+        "an EARLIER Collapse(); for the total-weight clause: some zero weight of the factor was)",
+        "measure runs: no user constraints are installed (the solver's constraints are exactly the collapse constraints, so the "
+        "candidate's total weight is observable by wrapping solver._constraints); Detect = reported is re-derived by TLC on recorded "
+        "runs for tolerance 0 only (signed equality-preserving ids: weight <= 0, |p_i - p_j| <= 0)",
+        "CollapseAs(offset=True) in the solver loop: NOTHING is claimed about the applied relation.  The docstrings define the "
+        "detector only (collapse_as: 'ptp(pairwise(parameters)) <= tolerance', an unsigned distance) and impose_as(mask, offset) for a "
+        "NUMERIC offset; no docstring says which offset a CollapseAs(offset=True) collapse applies (the detector reports pairs, not "
+        "offsets, and the sign of the recorded difference is lost), and Solver.Collapse() passes the condition's boolean "
+        "offset=True on as the number 1 (x_j = x_i + 1).  The detector and its mask are covered by the case tables",
+        "CollapseCost in the solver loop is not covered; that the inner Step loop returns is C05",
     ]
 
 
